@@ -141,7 +141,7 @@ def opNames : List (String × List String) := [
   ("write_bytes", ["write_bytes"]), ("write_buffer", ["write_bytes"]), ("stat", ["stat"]),
   ("get_dir", ["stat"]), ("rename", ["rename", "file_size"]), ("link", ["rename", "file_size"]),
   ("cp", ["cp"]), ("save_object", ["save_object"]), ("restore_object", ["restore_object"]),
-  ("dumpallobj", ["dumpallobj"]), ("dump_prog", ["dumpallobj"])]
+  ("dumpallobj", ["dumpallobj"]), ("dump_prog", ["dumpallobj"]), ("ed", ["ed_start"])]
 
 /-- efuns whose file access is NOT mediated by valid_read/valid_write (compiler: load_object, #include,
     inherit): only confinement is required of them -/
